@@ -214,6 +214,12 @@ func evPkts(v interface{}) []*packet.Packet {
 }
 
 // otherSection: a complete non-PMT section (table id != 2, != 0xFF) of body length n.
+// shortSection: a complete short-form private section of 3..6 bytes (section_syntax_indicator 0, section_length 0..3, no CRC)
+func shortSection(r *rand.Rand, sl int) []byte {
+	sec := []byte{[]byte{0x42, 0xC8, 0x70, 0x80}[r.Intn(4)], 0x30, byte(sl)}
+	return append(sec, rndBytes(r, sl)...)
+}
+
 func otherSection(r *rand.Rand, n int) []byte {
 	body := make([]byte, n)
 	r.Read(body)
